@@ -93,11 +93,6 @@ def tree_hash():
             h.update(f.encode())
             with open(f, "rb") as fh:
                 h.update(hashlib.sha256(fh.read()).digest())
-        # the harness sources are part of what gets built
-        hd = os.path.join(VERIF, "harness")
-        for f in sorted(os.listdir(hd)):
-            with open(os.path.join(hd, f), "rb") as fh:
-                h.update(f.encode() + hashlib.sha256(fh.read()).digest())
         _tree_hash = h.hexdigest()[:16]
     return _tree_hash
 
@@ -183,10 +178,17 @@ def ensure_harness(name, variant="plain", extra=(), libs=("-lzstd", "-lcrypto"))
     """harness/<name>.c linked against the working tree's library"""
     d = ensure_lib(variant)
     cc, cflags, ldflags, ossl = VARIANTS[variant]
-    exe = os.path.join(d, name)
+    hh = hashlib.sha256()
+    for f in (name + ".c", "zh_common.h"):
+        hh.update(open(os.path.join(VERIF, "harness", f), "rb").read())
+    hh.update(repr((extra, libs)).encode())
+    exe = os.path.join(d, name + "_" + hh.hexdigest()[:10])
     with Lock():
         if os.path.exists(exe):
             return exe
+        for old in os.listdir(d):
+            if old.startswith(name + "_"):
+                os.unlink(os.path.join(d, old))
         inc = os.path.join(cache_dir(), "include")
         cmd = [cc, "-std=gnu11", "-D_FILE_OFFSET_BITS=64", "-D_GNU_SOURCE", "-w", "-DZCHUNK_ZSTD", "-D" + GUARD,
                "-DREPO_SRC=\"%s\"" % os.path.join(REPO, "src"),
@@ -383,21 +385,39 @@ def ensure_model(pid):
 # running both sides
 # ----------------------------------------------------------------------------------
 def run_lines(cmd, infile=None, timeout=600, env=None, input=None):
-    """run a command, return (rc, list of stdout lines, stderr text)"""
+    """run a command, return (rc, list of stdout lines, stderr text); output goes through
+    files, not pipes (hundreds of thousands of flushed lines)"""
     e = dict(os.environ)
     e.update(ASAN_ENV)
     if env:
         e.update(env)
-    stdin = open(infile, "rb") if infile else None
+    os.makedirs(os.path.join(CACHE, "work"), exist_ok=True)
+    base = os.path.join(CACHE, "work", "out_%d_%d" % (os.getpid(), time.time_ns()))
+    fo = open(base + ".out", "wb")
+    fe = open(base + ".err", "wb")
+    stdin = open(infile, "rb") if infile else (subprocess.PIPE if input is not None else subprocess.DEVNULL)
+    rc = None
     try:
-        p = subprocess.run(cmd, stdin=stdin, input=input, stdout=subprocess.PIPE, stderr=subprocess.PIPE,
-                           timeout=timeout, env=e)
-    except subprocess.TimeoutExpired as ex:
-        return -9999, (ex.stdout or b"").decode("utf-8", "replace").splitlines(), "TIMEOUT"
+        p = subprocess.Popen(cmd, stdin=stdin, stdout=fo, stderr=fe, env=e)
+        try:
+            p.communicate(input=input, timeout=timeout)
+            rc = p.returncode
+        except subprocess.TimeoutExpired:
+            p.kill()
+            p.wait()
+            rc = -9999
     finally:
-        if stdin:
+        if infile:
             stdin.close()
-    return p.returncode, p.stdout.decode("utf-8", "replace").splitlines(), p.stderr.decode("utf-8", "replace")
+        fo.close()
+        fe.close()
+    out = open(base + ".out", "rb").read().decode("utf-8", "replace").splitlines()
+    err = open(base + ".err", "rb").read()[-20000:].decode("utf-8", "replace")
+    os.unlink(base + ".out")
+    os.unlink(base + ".err")
+    if rc == -9999:
+        err += "TIMEOUT"
+    return rc, out, err
 
 
 def hexs(b):
